@@ -9,8 +9,8 @@
 #define _GNU_SOURCE
 #include "vh.h"
 
-enum { W_OBJ_BEGIN = 0, W_OBJ_END, W_ARR_BEGIN, W_ARR_END, W_BOOL, W_INT, W_DOUBLE, W_STRING, W_STRING_LEN, W_NAME, W_NAME_LEN, W_BYTES, W_RAW, W_RAW_NULL, W_PTW_SCALAR, W_PTW_CONT, W_QUERY, W_NOPS };
-static const char *WNAME[] = { "object_begin", "object_end", "array_begin", "array_end", "boolean", "integer", "double", "string", "string_with_len", "name", "name_with_len", "bytes", "raw", "raw(NULL)", "parser_to_writer(on a scalar)", "parser_to_writer(on a container)", "writer_verify+get_counter(query)" };
+enum { W_OBJ_BEGIN = 0, W_OBJ_END, W_ARR_BEGIN, W_ARR_END, W_BOOL, W_INT, W_DOUBLE, W_STRING, W_STRING_LEN, W_NAME, W_NAME_LEN, W_BYTES, W_RAW, W_RAW_NULL, W_PTW_SCALAR, W_PTW_CONT, W_QUERY, W_RAW_HUGE, W_BYTES_HUGE, W_NOPS };
+static const char *WNAME[] = { "object_begin", "object_end", "array_begin", "array_end", "boolean", "integer", "double", "string", "string_with_len", "name", "name_with_len", "bytes", "raw", "raw(NULL)", "parser_to_writer(on a scalar)", "parser_to_writer(on a container)", "writer_verify+get_counter(query)", "raw(length near SIZE_MAX)", "bytes/string(length above INT32_MAX)" };
 
 typedef struct {
     int op; bool b; int64_t i; uint64_t dbits;
@@ -55,6 +55,7 @@ static void call_model(wcall *c, vbuf *full)
     case W_RAW_NULL: c->npieces = 0; return;
     case W_PTW_SCALAR: c->npieces = 0; return;                       /* returns false and changes nothing */
     case W_QUERY: c->npieces = 0; return;                            /* queries change nothing */
+    case W_RAW_HUGE: case W_BYTES_HUGE: c->npieces = 0; return;      /* terminal: must fail without storing or reading anything */
     case W_PTW_CONT: vb_put(full, PTW_DOC + 4, 7); break;            /* appends exactly the container's bytes */
     }
     c->piece[0] = full->n - before;
@@ -101,7 +102,7 @@ static void describe_calls(const wcall *calls, int n, vbuf *o)
 static void random_call(vrng *r, wcall *c, bool allow_null, bool allow_big)
 {
     memset(c, 0, sizeof *c);
-    static const uint8_t w[W_NOPS] = { 8, 8, 6, 6, 5, 14, 5, 6, 8, 5, 6, 10, 6, 0, 3, 4, 3 };
+    static const uint8_t w[W_NOPS] = { 8, 8, 6, 6, 5, 14, 5, 6, 8, 5, 6, 10, 6, 0, 3, 4, 3, 0, 0 };
     uint32_t sum = 0; for (int i = 0; i < W_NOPS; i++) sum += w[i];
     uint32_t x = vrn(r, sum); int op = 0; while (x >= w[op]) { x -= w[op]; op++; }
     if (allow_null && vrn(r, 25) == 0) op = W_RAW_NULL;
@@ -142,7 +143,7 @@ static bool run_list(wcall *calls, int n, const vbuf *full, size_t cap, int form
             snprintf(sig, sizeof sig, "%s:init", sigp); snprintf(what, sizeof what, "binson_writer_init did not give a clean writer"); ok = false;
         }
     }
-    bool failed = false, nullerr = false; size_t stored = 0, counter = 0;
+    bool failed = false, nullerr = false, terminal = false; size_t stored = 0, counter = 0;
     for (int i = 0; i < n && ok; i++) {
         wcall *c = &calls[i];
         if (c->op == W_RAW_NULL) { failed = true; nullerr = true; }
@@ -159,6 +160,19 @@ static bool run_list(wcall *calls, int n, const vbuf *full, size_t cap, int form
             if (binson_writer_get_counter(w) != c0 || w->error_flags != e0) { snprintf(sig, sizeof sig, "%s:query-changed-writer", sigp); snprintf(what, sizeof what, "binson_writer_verify/get_counter changed the writer: counter %zu -> %zu, error %s -> %s", c0, binson_writer_get_counter(w), verr_name((int)e0), verr_name((int)w->error_flags)); ok = false; }
             continue;
         }
+        if (c->op == W_RAW_HUGE || c->op == W_BYTES_HUGE) {
+            /* a length the data cannot have: counter + length wraps size_t (raw), or exceeds INT32_MAX (string/bytes).
+             * The call must fail, set an error and neither store nor read anything (the source block has 1 byte). */
+            uint8_t *one = vg_exact(1); one[0] = 0x5A;
+            size_t huge = c->op == W_RAW_HUGE ? (size_t)0 - (size_t)(1 + c->i % 7) : (size_t)INT32_MAX + 1 + (size_t)(c->i % 1000);
+            bool r2 = c->op == W_RAW_HUGE ? binson_write_raw(w, one, huge) : ((c->i & 1) ? binson_write_bytes(w, one, huge) : binson_write_string_with_len(w, (const char *)one, huge));
+            vg_free(one, 1);
+            if (r2 || w->error_flags == BINSON_ERROR_NONE) { snprintf(sig, sizeof sig, "%s:huge-length-accepted:%s", sigp, WNAME[c->op]); snprintf(what, sizeof what, "call %d (%s, length %zu) returned %d with error_flags=%s", i, WNAME[c->op], huge, r2, verr_name((int)w->error_flags)); ok = false; }
+            if (ok && stored && memcmp(dst, full->p, stored) != 0) { snprintf(sig, sizeof sig, "%s:prefix-damaged", sigp); snprintf(what, sizeof what, "the stored prefix was damaged by a write with an impossible length"); ok = false; }
+            for (size_t k = stored; ok && k < cap; k++) if (dst[k] != 0xA7) { snprintf(sig, sizeof sig, "%s:store-after-failure", sigp); snprintf(what, sizeof what, "byte %zu was modified by a write with an impossible length", k); ok = false; }
+            terminal = true;
+            break;
+        }
         bool ret = call_exec(w, c);
         size_t cnt = binson_writer_get_counter(w);
         bool expect_ret = !failed && c->op != W_PTW_SCALAR;
@@ -173,12 +187,12 @@ static bool run_list(wcall *calls, int n, const vbuf *full, size_t cap, int form
             for (size_t k = stored; ok && k < cap; k++) if (dst[k] != 0xA7) { snprintf(sig, sizeof sig, "%s:store-after-failure", sigp); snprintf(what, sizeof what, "byte %zu (>= stored prefix %zu) was modified by call %d (%s) after/at the failing piece", k, stored, i, WNAME[c->op]); ok = false; }
         }
     }
-    if (ok) {
+    if (ok && !terminal) {
         if (stored && memcmp(dst, full->p, stored) != 0) { snprintf(sig, sizeof sig, "%s:bytes", sigp); size_t at = 0; while (dst[at] == full->p[at]) at++; snprintf(what, sizeof what, "stored bytes differ from the encoding at offset %zu (0x%02x, expected 0x%02x)", at, dst[at], full->p[at]); ok = false; }
         for (size_t k = stored; ok && k < cap; k++) if (dst[k] != 0xA7) { snprintf(sig, sizeof sig, "%s:store-beyond-prefix", sigp); snprintf(what, sizeof what, "byte %zu beyond the stored prefix (%zu) was modified", k, stored); ok = false; }
         if (ok && (counter > cap) != (w->error_flags == BINSON_ERROR_RANGE) && !nullerr) { snprintf(sig, sizeof sig, "%s:range-iff", sigp); snprintf(what, sizeof what, "total %zu, capacity %zu, error_flags=%s", counter, cap, verr_name((int)w->error_flags)); ok = false; }
     }
-    if (ok && !given_dst) {
+    if (ok && !given_dst && !terminal) {
         /* reset is a writer call too: it must not store outside the first `cap` bytes either */
         (void)binson_writer_reset(w);
         if (cap >= 2 && (binson_writer_get_counter(w) != 0 || w->error_flags != BINSON_ERROR_NONE)) { snprintf(sig, sizeof sig, "%s:reset-not-clean", sigp); snprintf(what, sizeof what, "after binson_writer_reset the counter is %zu and error_flags=%s", binson_writer_get_counter(w), verr_name((int)w->error_flags)); ok = false; }
@@ -201,6 +215,7 @@ static void case_lists(vrng *r, bool c09)
     vbuf full; memset(&full, 0, sizeof full);
     bool big = vrn(r, 40) == 0;
     for (int i = 0; i < n; i++) { random_call(r, &calls[i], c09, big); call_model(&calls[i], &full); }
+    if (vrn(r, 12) == 0) { wcall *l = &calls[n - 1]; call_free(l); full.n = l->enc_off; memset(l, 0, sizeof *l); l->op = vrn(r, 2) ? W_RAW_HUGE : W_BYTES_HUGE; l->i = (int64_t)vrn(r, 100000); call_model(l, &full); vw_count("lists_ending_with_impossible_length", 1); }
     size_t T = full.n;
     binson_writer *w = (binson_writer *)malloc(sizeof(binson_writer));
     uint64_t runs = 0;
@@ -218,6 +233,26 @@ static void case_lists(vrng *r, bool c09)
             if (!take) continue;
             ok = run_list(calls, n, &full, cap, (int)(cap & 1), w, NULL, c09 ? "c09w" : "c04", 0); runs++;
         }
+    }
+    if (c09 && ok) {
+        /* a writer whose init was refused (NULL buffer): every write fails, nothing is stored anywhere, the counter still counts */
+        memset(w, 0xD1, sizeof *w);
+        bool ir = binson_writer_init(w, NULL, T + 5);
+        size_t counter = 0; bool bad = ir || w->error_flags == BINSON_ERROR_NONE;
+        for (int i = 0; i < n && !bad; i++) {
+            if (calls[i].op >= W_QUERY) continue;
+            bool r2 = call_exec(w, &calls[i]);
+            for (int k = 0; k < calls[i].npieces; k++) counter += calls[i].piece[k];
+            if (r2 || w->error_flags == BINSON_ERROR_NONE || binson_writer_get_counter(w) != counter) {
+                vbuf d; memset(&d, 0, sizeof d);
+                vb_printf(&d, "writer initialised with a NULL buffer: call %d (%s) returned %d, error_flags=%s, counter %zu (exact size so far %zu)\ncalls: ", i, WNAME[calls[i].op], r2, verr_name((int)w->error_flags), binson_writer_get_counter(w), counter);
+                describe_calls(calls, n, &d);
+                vw_violation(r2 ? "c09w:null-buffer:write-succeeds" : (w->error_flags == BINSON_ERROR_NONE ? "c09w:null-buffer:error-cleared" : "c09w:null-buffer:counter"), "%s", vb_cstr(&d)); vb_free(&d);
+                bad = true;
+            }
+        }
+        if (ir) vw_violation("c09w:null-buffer:init-true", "binson_writer_init(w, NULL, n) returned true");
+        vw_count("null_buffer_writer_runs", 1);
     }
     vw_count("capacity_runs", runs);
     vw_count("write_calls", runs * (uint64_t)n);
